@@ -105,7 +105,11 @@ def _make(cls, A, directed, w, W=None):
 def _call(net, name, kw):
     """('ok', value) | ('exc', 'Type: msg')."""
     try:
-        v = getattr(net, name)(**kw)
+        if "/" in name:          # "method/key": one entry of a dict result
+            meth, sub = name.split("/")
+            v = getattr(net, meth)(**kw)[sub]
+        else:
+            v = getattr(net, name)(**kw)
     except (KeyboardInterrupt, SystemExit, MemoryError):
         raise
     except BaseException as e:   # noqa  the library raises many kinds
@@ -432,6 +436,24 @@ def _split_engine(n, directed, A, w, W, seqs, skip=()):
                     plan.append((name, m.kind, pat, _ptag(pat), tol, (S, T)))
             else:
                 plan.append((name, m.kind, pat, _ptag(pat), tol, None))
+    # the n.s.i. entries of dict-valued methods (distance_based_measures):
+    # with an explicit replacement for infinite distances always, with the
+    # default (the number of nodes, which a split changes) on connected
+    # networks only
+    all_reachable = bool(np.isfinite(np.asarray(
+        base.path_lengths(), dtype=float)).all())
+    for meth in mt.dict_methods(Network):
+        m = mt.lookup(Network, meth)
+        if meth in skip:
+            continue
+        for sub, kind in sorted(m.sub.items()):
+            if not sub.startswith("nsi_"):
+                continue
+            for pat in m.patterns:
+                if not pat and not all_reachable:
+                    continue
+                plan.append(("%s/%s" % (meth, sub), kind, pat, _ptag(pat),
+                             _tol(m, n, w), None))
     base_val = {}
     for k, (name, kind, pat, tag, tol, grp) in enumerate(plan):
         kw = _groups_for(pat, n, *(grp or ((), ())))
